@@ -21,6 +21,7 @@ mod rfc1982;
 mod rrdp;
 mod rtrconn;
 mod rtrwire;
+mod rtrpacing;
 mod rtrfanout;
 mod rtaval;
 mod sigobj;
@@ -62,6 +63,7 @@ fn main() {
         ("drive", "caxml") => caxml::drive(rest),
         ("replay", "decoders") => decoders::replay(rest),
         ("replay", "taltext") => taltext::replay(rest),
+        ("replay", "rtrpacing") => rtrpacing::replay(rest),
         ("replay", "rtrfanout") => rtrfanout::replay(rest),
         ("replay", "rtaval") => rtaval::replay(rest),
         ("cycle", "rtaval") => rtaval::cycle(rest),
